@@ -167,6 +167,9 @@ func (t *PageTree) loadPages() error {
 
 	// Start recursive traversal from root
 	if err := t.traversePageNode(t.root, nil); err != nil {
+		// do not keep the pages collected so far: the next call would take the
+		// partial list for the loaded tree and answer without an error
+		t.pages = nil
 		return fmt.Errorf("failed to traverse page tree: %w", err)
 	}
 
